@@ -2,6 +2,7 @@ import AthlibVerif.Props.C02
 import AthlibVerif.Lemmas.RankOrder
 import AthlibVerif.Lemmas.Interleave
 import AthlibVerif.Lemmas.CardLog
+import AthlibVerif.Lemmas.CardCells
 import AthlibVerif.Lemmas.RoundRobin
 import AthlibVerif.Lemmas.Import
 /-!
@@ -189,6 +190,37 @@ theorem cardLog_reachable (c : Comp) (h : Reachable c) : LogBibs c ∧ CardLog c
 theorem C08_cards_are_the_log (c : Comp) (h : Reachable c) (j : Jumper) (hj : j ∈ c.jumpers) :
     j.card.flatten = marksOf j.bib c.log :=
   (cardLog_reachable c h).2 j hj
+
+theorem cells_reachable (c : Comp) (h : Reachable c) : BarsLog c ∧ CardCells c := by
+  induction h with
+  | init => exact ⟨rfl, (fun j hj => by cases hj)⟩
+  | step c op hr ih =>
+    have hg := good_reachable c hr
+    exact ⟨step_BarsLog c op ih.1, step_CardCells c op hg.wf hg.flags (cardLog_reachable c hr).1 ih.1 ih.2⟩
+
+/-- **Cell by cell**: in every reachable competition an athlete's card, padded with empty cells to the number of bars so
+    far (the row `to_matrix` writes), holds in the column of each bar exactly the athlete's accepted trials made between
+    that bar call and the next one, in order — and there are as many bars as accepted bar calls. -/
+theorem C08_cells_are_the_log (c : Comp) (h : Reachable c) (j : Jumper) (hj : j ∈ c.jumpers) :
+    padCard j.card c.heights.length = cellsOf j.bib c.log ∧ c.heights.length = bars c.log :=
+  ⟨(cells_reachable c h).2 j hj, (cells_reachable c h).1⟩
+
+/-- … in particular, cell `i` of the card itself (an absent trailing cell reads as empty) -/
+theorem C08_cell (c : Comp) (h : Reachable c) (j : Jumper) (hj : j ∈ c.jumpers) (i : Nat) :
+    j.card.getD i [] = (cellsOf j.bib c.log).getD i [] := by
+  rw [← (C08_cells_are_the_log c h j hj).1]
+  unfold padCard
+  by_cases hi : i < j.card.length
+  · simp [List.getD, List.getElem?_append_left hi]
+  · have hi' : j.card.length ≤ i := by omega
+    simp only [List.getD, List.getElem?_eq_none hi', Option.getD_none]
+    rw [List.getElem?_append_right hi']
+    cases hr : (List.replicate (c.heights.length - j.card.length) ([] : List Trial))[i - j.card.length]? with
+    | none => rfl
+    | some x =>
+      have := List.mem_of_getElem? hr
+      rw [List.mem_replicate] at this
+      simp [this.2]
 
 /-- every trial in the log was made by a registered athlete -/
 theorem C08_log_bibs_registered (c : Comp) (h : Reachable c) (b : Nat) (t : Trial) (hm : Op.trial b t ∈ c.log) :
